@@ -234,20 +234,6 @@ func (h History) Ledger() []Track {
 		if t.altNew && t.origin != "" {
 			tr.Origins = append(tr.Origins, Origin{})
 		}
-		// the path exists at the fork point as well, but the branch renamed that
-		// file away (or deleted it) and created this one later: comparing the two
-		// versions of the path directly is an accepted alternative reading
-		if _, ok := h.Fork().Get(f.Path); ok {
-			seen := false
-			for _, o := range tr.Origins {
-				if o.Path == f.Path {
-					seen = true
-				}
-			}
-			if !seen {
-				tr.Origins = append(tr.Origins, Origin{Path: f.Path})
-			}
-		}
 		out = append(out, tr)
 	}
 	return out
